@@ -109,11 +109,10 @@ fn gen_diff_names<Target, Name, Mapping>(ab: Combination<&Target>) -> Result<Act
 	match ab.map(|target| target.get_node_info().get_names()[target_namespace].clone()) {
 		Combination::A(a) => a.map(Action::Remove).with_context(|| anyhow!("cannot generate diff for removal with empty name")),
 		Combination::B(b) => b.map(Action::Add).with_context(|| anyhow!("cannot generate diff for addition with empty name")),
-		Combination::AB(a, b) => {
-			let a = a.with_context(|| anyhow!("cannot generate diff for mapping with empty name on side a"))?;
-			let b = b.with_context(|| anyhow!("cannot generate diff for mapping with empty name on side b"))?;
-			Ok(Action::Edit(a, b))
-		},
+		// A mapping existing on both sides may gain a name or stay without one, but taking the name away
+		// while keeping the mapping has no representation: `Action::Remove` removes the whole mapping.
+		Combination::AB(Some(_), None) => bail!("cannot generate diff for mapping with empty name on side b"),
+		Combination::AB(a, b) => Ok(Action::from_tuple(a, b)),
 	}
 }
 
